@@ -8,59 +8,14 @@ from checkplan import PLAN
 
 BASELINE = json.load(open('/root/.vp/BASELINE.json'))['cmd']
 
-CHECKS = {
- "C01": dict(
-    cat="fault_enumeration",
-    text="Runtime monitoring under structure-aware fault injection: every public entry point is driven on real fonts with 1-4 injected faults while panic, allocation (refusal + peak), CPU-time, stack and read-window monitors watch; the supervisor attributes aborts/hangs to the case in flight. Holds on the executions observed; known crash sites are listed individually in known_findings.json.",
-    ref="DESIGN.md §4 C01",
-    note="Trusted: monitor thresholds (1 GiB request, 256 MiB+512 B/byte peak, 4 s+40 us/byte CPU, 8 MiB stack); strict build profile. Not covered: inputs outside the fault operators' reach.",
-    technique="fault injection + panic/alloc/CPU/stack monitors in supervised workers"),
- "C06": dict(
-    cat="exploration",
-    text="Runtime monitoring against an abstract code->glyph map: generated cmap tables in every format and layout variant, written by an independent writer, are probed through every lookup API and through whole-font lookup with all supported encodings; real fonts are compared with an independent reader; the character-set conversions are checked exhaustively.",
-    ref="DESIGN.md §4 C06",
-    note="Trusted: the independent cmap writer/reader (self-tested against each other at setup) and the Python-codec tables; the documented subtable preference order.",
-    technique="reference-model oracle over generated cmap tables + exhaustive conversion sub-spaces"),
- "C10": dict(
-    cat="exploration",
-    text="Runtime monitoring by conservation: whatever table bytes the harness's own sfnt/TTC/WOFF writers store must come back byte-for-byte through every container reader, with the tag set, flavour, absence and out-of-range member behaviour checked; both flate2 backends in the thorough tier.",
-    ref="DESIGN.md §4 C10",
-    note="Trusted: the independent container writers. zlib encoding by flate2.",
-    technique="round-trip/conservation oracle over generated containers"),
- "C11": dict(
-    cat="exploration",
-    text="Runtime monitoring by round trip through an independent WOFF2 encoder that exercises every encoder choice the format allows; the decoded tables are judged by an independent sfnt/glyf/hmtx reader against the abstract font, and the variable-length integer codecs are covered exhaustively.",
-    ref="DESIGN.md §4 C11",
-    note="Trusted: the harness's WOFF2 encoder (triplet encoder self-tested against the W3C decoding table at setup) and glyf/hmtx readers. Brotli streams are stored (uncompressed meta-blocks).",
-    technique="round-trip oracle through an independent encoder + exhaustive varint sub-spaces"),
- "C13": dict(
-    cat="exploration",
-    text="Runtime monitoring against an exact rational reference model of fvar/avar normalisation over generated axis triples, segment maps and user values, with exhaustive coverage of all 65536 F2Dot14 values for the fixed-point conversions.",
-    ref="DESIGN.md §4 C13",
-    note="Trusted: the model's reading of the OpenType normalisation algorithm; harness fvar/avar writers (self-checked by allsorts parsing them).",
-    technique="reference-model oracle over generated inputs + exhaustive sub-space"),
- "C14": dict(
-    cat="exploration",
-    text="Runtime monitoring: random reader-operation programs over poisoned buffers checked step by step against a shadow model, with the read-window hook, Miri, ASan and memcheck as out-of-bounds detectors; plus real/faulted font parsing under the hook. Holds on the executions observed only.",
-    ref="DESIGN.md §4 C14",
-    note="Trusted: the shadow model; hook placement in the four primitive readers; Miri/ASan/valgrind semantics. Not covered: reader operations on types with non-unit Args other than those the real parsers use.",
-    technique="shadow-model monitor over op histories + read-window hook + Miri/ASan/memcheck"),
- "C16": dict(
-    cat="exploration",
-    text="Runtime monitoring against a contour/transform reference model: generated glyf tables (all on/off-curve patterns, flag encodings, composite transform kinds and nesting) are visited and the delivered drawing commands compared with the model modulo start-point rotation.",
-    ref="DESIGN.md §4 C16",
-    note="Trusted: the independent glyf writer/reader (round-trip self-check per case) and the model's reading of the glyf specification. Point-matching composites and scaled component offsets are exercised but not judged.",
-    technique="reference-model oracle over generated glyf tables (recording OutlineSink)"),
- "C17": dict(
-    cat="exploration",
-    text="Runtime monitoring of text preprocessing against table-free relational invariants (permutation, bases fixed, mark runs permuted within themselves, content changes explained by the documented rewrites) and exact per-script reference models (stable sort by modified combining class, UTR #53, AM / Indic / Khmer rewrites) over generated hostile texts and an enumerated small-text sub-space.",
-    ref="DESIGN.md §4 C17",
-    note="Trusted: Python unicodedata tables (generated file), the transcribed modified-combining-class table and prohibited-pair list, the UTR #53 reference.",
-    technique="relational invariants + reference-model oracle over generated texts"),
-}
+from checkplan import MANIFEST_TEXT as CHECKS
 
 ALL = ["C%02d" % i for i in range(1, 19)]
-PENDING_REASON = "check not built yet in this round (under construction; see DESIGN.md §8 build order) - no claim is made"
+PENDING_REASON = "check not built yet (under construction; see DESIGN.md §8 build order) - no claim is made"
+try:
+    NA_REASONS = json.load(open(os.path.join(ROOT, "plan.d", "not_applicable.json")))
+except Exception:
+    NA_REASONS = {}
 
 def main():
     hooks = subprocess.run(["git", "-C", "/repo", "log", "--format=%H %s"], capture_output=True, text=True).stdout.splitlines()
@@ -80,7 +35,7 @@ def main():
                 "level_note": c["note"],
                 "technique": c["technique"],
             })
-    na = [{"property_id": p, "reason": PENDING_REASON} for p in ALL if p not in CHECKS or p not in PLAN]
+    na = [{"property_id": p, "reason": NA_REASONS.get(p, PENDING_REASON)} for p in ALL if p not in CHECKS or p not in PLAN]
     m = {
         "version": 1,
         "setup_cmd": "./check --setup",
